@@ -172,12 +172,11 @@ func (s *serviceImpl) Remove(objectID uint32) error {
 func (s *serviceImpl) Receive(m *net.Message, from Channel) error {
 	s.RLock()
 	box, ok := s.boxes[m.Header.Object]
+	vhook.Emit("service", from.EndPoint(), vhook.Pick(ok, "tobox", "noobj"), "box", vhook.ID(box), "id", m.Header.ID, "service", m.Header.Service, "object", m.Header.Object)
 	s.RUnlock()
 	if !ok {
-		vhook.Emit("service", from.EndPoint(), "noobj", "id", m.Header.ID, "service", m.Header.Service, "object", m.Header.Object)
 		return from.SendError(m, ErrObjectNotFound)
 	}
-	vhook.Emit("service", from.EndPoint(), "tobox", "box", vhook.ID(box), "id", m.Header.ID, "service", m.Header.Service, "object", m.Header.Object)
 	box <- NewMail(m, from)
 	return nil
 }
